@@ -104,8 +104,8 @@ class C12(core.Check):
             # element failure at the k-th call of a seeded element function: the program either aborts (not judged) or
             # something swallows the error -- then it "finishes normally" and must be balanced
             case["fault"] = dict(target=("*" if rf.random() < 0.75 else rf.choice(TARGETS)), at=rf.choice([1, 1, 2, 2, 3, 4, 5, 6, 8]),
-                                 exc=rf.choice(["StopIteration", "StopIteration", "TypeError", "ValueError", "IndexError",
-                                                "ZeroDivisionError", "RuntimeError"]))
+                                 exc=rf.choice(["StopIteration", "StopIteration", "TypeError", "TypeError", "ValueError", "IndexError",
+                                                "ZeroDivisionError", "RuntimeError", "AttributeError", "KeyError"]))
         return case
 
     # ------------------------------------------------------------------ execution
